@@ -359,6 +359,20 @@ SOLO_COMPOSITES = [
       enf=True, depth=3),   # (the later position's own member is required, so that every valid instance carries it)
     L("tuple_obj_enum_obj", {"type": "array", "items": [obj({"a": STR}), {"type": "string", "enum": ["p", "q"]}, obj({"b": INT}), {"type": "string", "enum": ["r", "s"]}],
                              "minItems": 4, "maxItems": 4}, enf=True, depth=3),
+    L("tuple_two_constrained", {"type": "array", "items": [{"type": "string", "maxLength": 5}, {"type": "string", "maxLength": 2}], "minItems": 2, "maxItems": 2}, enf=True),
+    L("tuple_two_enums", {"type": "array", "items": [{"type": "string", "enum": ["red", "green"]}, {"type": "string", "enum": ["on", "off"]}], "minItems": 2, "maxItems": 2}, enf=True),
+    L("tuple_two_int_enums", {"type": "array", "items": [{"type": "integer", "enum": [1, 2, 3]}, {"type": "integer", "enum": [10, 20]}, {"type": "string", "not": {"enum": ["x"]}}],
+                              "minItems": 3, "maxItems": 3}, enf=True),
+    # additionalProperties given as a $ref next to an annotation (still a schema, not "anything")
+    L("struct_ap_ref_annotated", obj({"owner": STR}, ["owner"], additionalProperties={"description": "per-item stock", "$ref": "#/definitions/XObj"}),
+      defs={"XObj": obj({"s": STR, "n": INT}, ["s"])}, enf=False, depth=3),
+    L("struct_ap_titled_any", obj({"owner": STR}, ["owner"], additionalProperties={"title": "Anything", "description": "free-form"}), enf=False),
+    # internally tagged enum ALL of whose variants are unit variants
+    L("int_tag_all_unit", {"oneOf": [obj({"kind": {"type": "string", "enum": ["fast"]}}, ["kind"]), obj({"kind": {"type": "string", "enum": ["slow"]}}, ["kind"])]}, enf=True),
+    # value lists that repeat a value (typed non-string enum, deny list): the list's order in the generated test is the document's
+    L("enum_int_repeat", {"type": "integer", "enum": [3, 1, 2, 1, 5]}, enf=True, sup=False),
+    L("enum_num_repeat", {"enum": [0.5, 0.25, 0.5, 4]}, ff=False, enf=False, sup=False),
+    L("deny_str_repeat", {"type": "string", "not": {"enum": ["a", "b", "a", "c"]}}, ff=False, enf=True, sup=False, strish=True),
     # a tagged variant carrying ANOTHER required single-valued string property that sorts before the tag name and exists in that variant only
     L("int_tag_extra_const_before", {"oneOf": [obj({"kind": {"type": "string", "enum": ["circle"]}, "api": {"type": "string", "enum": ["v1"]}, "radius": INT}, ["kind", "api", "radius"]),
                                                obj({"kind": {"type": "string", "enum": ["square"]}, "side": INT}, ["kind", "side"])]}, enf=True),
